@@ -333,17 +333,21 @@ def run_tensor_gate(case):
 # 2-4. TensorNetwork.gate_inds on generic networks
 # ---------------------------------------------------------------------------
 
+K123 = st.sampled_from([1, 2, 2, 2, 3, 3])
+
+
 @st.composite
-def s_targets(draw, desc, kmin=1, kmax=3):
+def s_targets(draw, desc, k):
+    """k distinct outer labels in random order (constructed: the caller asked s_generic for >= k of them)."""
     out = sorted(G.net_outer(desc))
-    k = draw(st.integers(min(kmin, len(out)), min(kmax, len(out))))
     return list(draw(st.permutations(out)))[:k]
 
 
 @st.composite
 def s_inds_basic(draw, tier):
-    desc = draw(s_generic(min_outer=1, kinds=NKINDS + ("zeros",)))
-    return {"net": desc, "inds": draw(s_targets(desc)), "gate": draw(s_gate()), "contract": draw(st.booleans()),
+    k = draw(K123)
+    desc = draw(s_generic(min_outer=k, kinds=NKINDS + ("zeros",)))
+    return {"net": desc, "inds": draw(s_targets(desc, k)), "gate": draw(s_gate()), "contract": draw(st.booleans()),
             "transpose": draw(st.booleans()), "dagger": draw(st.booleans()), "inplace": draw(st.booleans()),
             "tags": draw(st.sampled_from([None, "GATE", ["GATE", "X"]])), "str_ind": draw(st.booleans()),
             "cutoff": draw(st.booleans())}
@@ -396,13 +400,13 @@ def run_inds_basic(case):
 @st.composite
 def s_inds_split(draw, tier):
     conforming = draw(st.integers(0, 7)) != 0
-    desc = draw(s_generic(min_outer=2, pair="bond" if conforming else None, kinds=NKINDS))
+    desc = draw(s_generic(min_outer=3, pair="bond" if conforming else None, kinds=NKINDS))
     if conforming:
         a = draw(st.sampled_from([l for l in desc["tensors"][0]["inds"] if l in G.net_outer(desc)]))
         b = draw(st.sampled_from([l for l in desc["tensors"][1]["inds"] if l in G.net_outer(desc)]))
         inds = [a, b] if draw(st.booleans()) else [b, a]
     else:
-        inds = draw(s_targets(desc, 1, 3))
+        inds = draw(s_targets(desc, draw(st.integers(1, 3))))
     return {"net": desc, "inds": inds, "gate": draw(s_gate()), "contract": draw(st.sampled_from(["split", "reduce-split"])),
             "transpose": draw(st.booleans()), "dagger": draw(st.booleans()), "inplace": draw(st.booleans()),
             "tags": draw(st.sampled_from([None, "GATE"])), "absorb": draw(st.sampled_from(["default", "both", "left", "right"])),
@@ -465,8 +469,9 @@ def run_inds_split(case):
 
 @st.composite
 def s_inds_splitgate(draw, tier):
-    desc = draw(s_generic(min_outer=2))
-    return {"net": desc, "inds": draw(s_targets(desc, 1, 3)), "gate": draw(s_gate()),
+    k = draw(st.sampled_from([1, 2, 2, 2, 2, 2, 3]))
+    desc = draw(s_generic(min_outer=k))
+    return {"net": desc, "inds": draw(s_targets(desc, k)), "gate": draw(s_gate()),
             "contract": draw(st.sampled_from(["split-gate", "swap-split-gate", "auto-split-gate"])),
             "transpose": draw(st.booleans()), "dagger": draw(st.booleans()), "inplace": draw(st.booleans()),
             "tags": draw(st.sampled_from([None, "GATE"])), "cutoff": draw(st.sampled_from(LAZY_CUTOFFS))}
@@ -512,7 +517,9 @@ def s_inds_str(draw, tier):
     desc = draw(s_generic(min_outer=2, npairs=draw(st.integers(0, 1))))
     entry = "gate_sandwich_inds" if desc.get("pairs") else draw(st.sampled_from(["gate_inds", "gate_inds_with_tn"]))
     out = sorted(G.net_outer(desc))
-    return {"net": desc, "entry": entry, "ind": draw(st.sampled_from(out)), "gate": draw(s_gate()), "contract": draw(st.booleans())}
+    multi = [l for l in out if len(l) > 1]
+    return {"net": desc, "entry": entry, "ind": draw(st.sampled_from(multi if multi and draw(st.integers(0, 3)) else out)),
+            "gate": draw(s_gate()), "contract": draw(st.booleans())}
 
 
 def run_inds_str(case):
@@ -553,8 +560,9 @@ def run_inds_str(case):
 
 @st.composite
 def s_inds_with_tn(draw, tier):
-    desc = draw(s_generic(min_outer=1))
-    inds = draw(s_targets(desc, 1, 3))
+    k = draw(K123)
+    desc = draw(s_generic(min_outer=k))
+    inds = draw(s_targets(desc, k))
     missing = []
     if draw(st.integers(0, 4)) == 0:
         # documented: targets that the network does not own are simply kept on the gate
@@ -745,6 +753,459 @@ def run_sandwich_inds(case):
             + (["outer-b"] if "b" in order else [])}
 
 
+# ---------------------------------------------------------------------------
+# 1D receivers built from seeded arrays (mixed physical dimensions, open / periodic)
+# ---------------------------------------------------------------------------
+
+@st.composite
+def s_chain(draw, Lmin=2, Lmax=6, cyclic=None, op=False):
+    L = draw(st.integers(Lmin, Lmax))
+    dims = [draw(st.sampled_from([2, 2, 3])) for _ in range(L)]
+    if op:
+        while int(np.prod(dims)) ** 2 > 1300:  # operator dense form <= ~2^10
+            dims.pop()
+        L = len(dims)
+    cyc = (L >= 3 and draw(st.integers(0, 2)) == 0) if cyclic is None else (cyclic and L >= 3)
+    bonds = [draw(st.sampled_from([1, 2, 2, 3])) for _ in range(L if cyc else L - 1)]
+    d = {"L": L, "dims": dims, "cyclic": cyc, "bonds": bonds, "seed": draw(A.seeds), "dtype": draw(st.sampled_from(A.DTYPES64)),
+         "site_tag_id": draw(st.sampled_from(["I{}", "I{}", "S{}"])), "gtag": draw(st.sampled_from([None, "PSI"]))}
+    if op:
+        d["upper_ind_id"], d["lower_ind_id"] = draw(st.sampled_from([["k{}", "b{}"], ["k{}", "b{}"], ["u{}", "d{}"]]))
+    else:
+        d["site_ind_id"] = draw(st.sampled_from(["k{}", "k{}", "q{}", "b{}"]))
+    return d
+
+
+def chain_arrays(cd, op=False, seed_shift=0, sites=None, bonds=None):
+    """Seeded arrays in 'lrp' / 'lrud' layout for the (sub-)chain `sites` of cd."""
+    L = cd["L"]
+    sites = list(range(L)) if sites is None else list(sites)
+    n = len(sites)
+    cyc = cd["cyclic"] and n == L
+    bonds = cd["bonds"] if bonds is None else bonds
+    rng = np.random.default_rng(int(cd["seed"]) + seed_shift)
+    cplx = "complex" in cd["dtype"]
+    arrs = []
+    for j, site in enumerate(sites):
+        shp = []
+        if cyc or j > 0:
+            shp.append(bonds[(j - 1) % len(bonds)])
+        if cyc or j < n - 1:
+            shp.append(bonds[j % len(bonds)])
+        shp += [cd["dims"][site]] * (2 if op else 1)
+        x = rng.normal(size=shp)
+        if cplx:
+            x = x + 1j * rng.normal(size=shp)
+        arrs.append(x / max(1.0, np.sqrt(x.size) / 2))
+    return arrs
+
+
+def build_mps(cd):
+    Q = qtn()
+    return Q.MatrixProductState(chain_arrays(cd), shape="lrp", site_ind_id=cd["site_ind_id"], site_tag_id=cd["site_tag_id"],
+                                tags=cd["gtag"])
+
+
+def build_mpo(cd, seed_shift=0, sites=None, bonds=None, upper=None, lower=None, tags=None):
+    Q = qtn()
+    kw = {}
+    if sites is not None:
+        kw = dict(sites=list(sites), L=cd["L"])
+    return Q.MatrixProductOperator(chain_arrays(cd, op=True, seed_shift=seed_shift, sites=sites, bonds=bonds), shape="lrud",
+                                   upper_ind_id=upper or cd.get("upper_ind_id", "k{}"), lower_ind_id=lower or cd.get("lower_ind_id", "b{}"),
+                                   site_tag_id=cd["site_tag_id"], tags=cd["gtag"] if tags is None else tags, **kw)
+
+
+def site_tags_of(cd):
+    return [cd["site_tag_id"].format(i) for i in range(cd["L"])]
+
+
+def adjacent(cd, i, j):
+    L = cd["L"]
+    if L == 2 and cd["cyclic"]:
+        return False
+    return abs(i - j) == 1 or (cd["cyclic"] and {i, j} == {0, L - 1})
+
+
+@st.composite
+def s_where(draw, cd, k, adj=False):
+    L = cd["L"]
+    k = min(k, L)
+    if adj and k == 2:
+        i = draw(st.integers(0, L - 1 if cd["cyclic"] else L - 2))
+        w = [i, (i + 1) % L]
+        return w if draw(st.booleans()) else w[::-1]
+    return list(draw(st.permutations(list(range(L)))))[:k]
+
+
+def where_classes(cd, where):
+    c = [f"sites={len(where)}"]
+    if len(where) >= 2:
+        c.append("sorted" if list(where) == sorted(where) else "unsorted")
+        c.append("adjacent" if all(adjacent(cd, a, b) for a, b in zip(where, where[1:])) else "distant")
+    if len(set(cd["dims"][w] for w in where)) > 1:
+        c.append("mixed-dims")
+    if cd["cyclic"]:
+        c.append("cyclic")
+    return c
+
+
+def permuted(vec, dims, perm):
+    """State whose site p carries what site perm[p] carried."""
+    n = len(dims)
+    v = np.asarray(vec).reshape(dims)
+    return np.transpose(v, perm).reshape(-1), [dims[p] for p in perm]
+
+
+def check_class(before_cls, after, **info):
+    if type(after) is not before_cls:
+        raise Violation("class-changed", got=type(after).__name__, want=before_cls.__name__, **info)
+
+
+MPS_MODES = [False, True, "split", "reduce-split", "split-gate", "swap-split-gate", "auto-split-gate", "swap+split", "nonlocal", "auto-mps"]
+LAZY = (False, "split-gate", "swap-split-gate", "auto-split-gate")
+
+
+# ---------------------------------------------------------------------------
+# 8. MatrixProductState.gate  (gate_TN_1D): every documented contract mode
+# ---------------------------------------------------------------------------
+
+@st.composite
+def s_mps_gate(draw, tier):
+    cd = draw(s_chain())
+    mode = draw(st.sampled_from(MPS_MODES))
+    conform = draw(st.integers(0, 9)) != 0
+    if mode in ("split", "reduce-split"):
+        k, adj = (2, True) if conform else (draw(st.integers(1, 3)), False)
+    elif mode in ("split-gate", "swap-split-gate", "swap+split"):
+        k, adj = (draw(st.sampled_from([1, 2, 2, 2])) if conform else 3), False
+    else:
+        k, adj = draw(K123), False
+    where = draw(s_where(cd, k, adj))
+    pre = None
+    if mode in LAZY + (True,) and draw(st.integers(0, 3)) == 0:
+        # receiver that already carries a lazily attached gate (built with numpy, see run)
+        pre = {"where": draw(s_where(cd, draw(st.sampled_from([1, 2])))), "gseed": draw(A.seeds)}
+    return {"chain": cd, "where": where, "gate": draw(s_gate()), "contract": mode, "tags": draw(st.sampled_from([None, "GATE", ["GATE", "G2"]])),
+            "propagate_tags": draw(st.sampled_from(["default", "sites", "register", False, True])), "inplace": draw(st.booleans()),
+            "int_where": draw(st.booleans()), "pre": pre, "cutoff": draw(st.sampled_from(LAZY_CUTOFFS))}
+
+
+def attach_lazy(tn, inds, M, tags):
+    """Attach an operator lazily with plain Tensor algebra (no quimb gating code): used to build receivers."""
+    Q = qtn()
+    dims = [tn.ind_size(ix) for ix in inds]
+    tmp = [f"__pre{j}" for j in range(len(inds))]
+    tn.reindex_(dict(zip(inds, tmp)))
+    tn |= Q.Tensor(M.reshape(dims + dims), inds=list(inds) + tmp, tags=tags)
+    return tn
+
+
+def mps_gate_domain(cd, mode, where):
+    k = len(where)
+    if mode in ("split", "reduce-split"):
+        if k == 1:
+            return "ok"
+        return "ok" if (k == 2 and adjacent(cd, *where)) else "reject"
+    if mode in ("split-gate", "swap-split-gate"):
+        return "ok" if k <= 2 else "must-reject"
+    if mode == "swap+split":
+        return "ok" if k <= 2 else "reject"
+    return "ok"
+
+
+def run_mps_gate(case):
+    cd = case["chain"]
+    psi = build_mps(cd)
+    L, dims = cd["L"], cd["dims"]
+    where = list(case["where"])
+    k = len(where)
+    mode = case["contract"]
+    order = [cd["site_ind_id"].format(i) for i in range(L)]
+    pre = case["pre"]
+    if pre:
+        pw = list(pre["where"])
+        pm = make_gate(pre["gseed"], "gauss", [dims[w] for w in pw], "complex128")
+        attach_lazy(psi, [order[w] for w in pw], pm, ["PRE"] + [cd["site_tag_id"].format(w) for w in pw])
+    Gm, Garg = build_gate(case["gate"], [dims[w] for w in where])
+    before, floor = dense(psi, order), magnitude(psi)
+    alltags = sorted(psi.tags)
+    old_tids = set(psi.tensor_map)
+    holders = [psi._inds_get(order[w])[0] for w in where]
+    holder_tags = set().union(*[set(t.tags) for t in holders])
+    ntens = psi.num_tensors
+    cls0 = type(psi)
+    kw = dict(contract=mode, tags=case["tags"])
+    if case["propagate_tags"] != "default":
+        kw["propagate_tags"] = case["propagate_tags"]
+    if mode in ("split", "reduce-split", "swap+split", "nonlocal", "auto-mps"):
+        kw["cutoff"] = 0.0
+    elif mode in LAZY and mode is not False:
+        kw["cutoff"] = case["cutoff"]
+    dom = mps_gate_domain(cd, mode, where)
+    if pre and mode in ("split", "reduce-split"):
+        dom = "reject" if dom == "reject" else "pre"
+    warg = where[0] if (k == 1 and case["int_where"]) else tuple(where)
+    info = dict(entry="MPS.gate", contract=mode_name(mode), k=k, cyclic=cd["cyclic"], pre=bool(pre))
+
+    def call():
+        r = psi.gate_(Garg, warg, **kw) if case["inplace"] else psi.gate(Garg, warg, **kw)
+        if case["inplace"] and r is not psi:
+            raise Violation("inplace-identity", **info)
+        return r
+
+    if dom == "ok":
+        res = call()
+    else:
+        with rejecting(ValueError, tag=f"{mode_name(mode)}-domain:"):
+            res = call()
+        if dom == "must-reject":
+            raise Violation("accepted-outside-domain", **info)
+    e = verify(before, floor, res, order, dims, [(Gm, where)], keep_tags=alltags + given_tags(case["tags"]), **info)
+    check_class(cls0, res, **info)
+    eff_mode = mode
+    if k == 1 and mode in ("split", "reduce-split", "swap+split", "nonlocal", "auto-mps"):
+        eff_mode = True
+    if eff_mode in ("split", "reduce-split", "swap+split", "nonlocal", "auto-mps") or (eff_mode is True and k == 1):
+        if res.num_tensors != ntens:
+            raise Violation("tensor-count", got=res.num_tensors, want=ntens, **info)
+    if mode is False or (mode in LAZY and k == 1):
+        # the documented tag set of the new (single) gate tensor
+        new = [t for tid, t in res.tensor_map.items() if tid not in old_tids]
+        if len(new) != 1:
+            raise Violation("tensor-count", got=len(new), want=1, **info)
+        pt = case["propagate_tags"]
+        pt = "sites" if pt == "default" else pt
+        st_all = set(site_tags_of(cd))
+        want = set(given_tags(case["tags"]))
+        if pt is True:
+            want |= holder_tags
+        elif pt == "sites":
+            want |= holder_tags & st_all
+        elif pt == "register":
+            want |= {cd["site_tag_id"].format(w) for w in where}
+        if set(new[0].tags) != want:
+            raise Violation("gate-tags", got=sorted(new[0].tags), want=sorted(want), propagate=str(pt), **info)
+    return {"nt": k >= 2 or mode not in (False, True), "err": e,
+            "cls": gate_classes(case["gate"], k) + where_classes(cd, where) + ["contract=" + mode_name(mode), "domain=" + dom,
+                                                                                f"ptags={case['propagate_tags']}"] + (["pre-gated"] if pre else [])}
+
+
+# ---------------------------------------------------------------------------
+# 9. MatrixProductState.gate_split
+# ---------------------------------------------------------------------------
+
+@st.composite
+def s_mps_gate_split(draw, tier):
+    cd = draw(s_chain())
+    return {"chain": cd, "where": draw(s_where(cd, 2, adj=True)), "gate": draw(s_gate()), "inplace": draw(st.booleans()),
+            "absorb": draw(st.sampled_from(["default", "both", "left", "right", None])),
+            "method": draw(st.sampled_from(["default", "svd", "eig", "qr"])), "max_bond": draw(st.sampled_from(["default", None])),
+            "cutoff_mode": draw(st.sampled_from(["default", "abs", "rel", "rsum2"]))}
+
+
+def run_mps_gate_split(case):
+    cd = case["chain"]
+    psi = build_mps(cd)
+    L, dims = cd["L"], cd["dims"]
+    where = list(case["where"])
+    if not adjacent(cd, *where):
+        raise Reject("L=2: no adjacent pair")
+    order = [cd["site_ind_id"].format(i) for i in range(L)]
+    Gm, Garg = build_gate(case["gate"], [dims[w] for w in where])
+    before, floor = dense(psi, order), magnitude(psi)
+    alltags, ntens, cls0 = sorted(psi.tags), psi.num_tensors, type(psi)
+    kw = {"cutoff": 0.0}
+    if case["absorb"] != "default":
+        kw["absorb"] = case["absorb"]
+    if case["method"] != "default":
+        kw["method"] = case["method"]
+        if case["method"] == "qr":
+            kw = {"method": "qr", "absorb": "right"}
+    if case["max_bond"] is None and "cutoff" in kw:
+        kw["max_bond"] = None
+    if case["cutoff_mode"] != "default" and "cutoff" in kw:
+        kw["cutoff_mode"] = case["cutoff_mode"]
+    info = dict(entry="MPS.gate_split", cyclic=cd["cyclic"], absorb=str(case["absorb"]), method=case["method"])
+    tol = INV64 if case["method"] == "eig" else TOL
+    if kw.get("absorb", 0) is None:
+        # absorb=None returns the singular values separately: gate_inds hands them to `info`, the bond is then *not*
+        # part of the state (simple-update convention) -> outside this property
+        raise Reject("absorb=None leaves the singular values out of the network")
+    res = psi.gate_split_(Garg, tuple(where), **kw) if case["inplace"] else psi.gate_split(Garg, tuple(where), **kw)
+    e = verify(before, floor, res, order, dims, [(Gm, where)], keep_tags=alltags, tol=tol, **info)
+    check_class(cls0, res, **info)
+    if res.num_tensors != ntens:
+        raise Violation("tensor-count", got=res.num_tensors, want=ntens, **info)
+    return {"nt": True, "err": e, "cls": gate_classes(case["gate"], 2) + where_classes(cd, where) + [f"absorb={case['absorb']}", "method=" + case["method"]]}
+
+
+# ---------------------------------------------------------------------------
+# 10. MatrixProductState.gate_with_auto_swap  (swap, gate, swap back or not)
+# ---------------------------------------------------------------------------
+
+@st.composite
+def s_mps_auto_swap(draw, tier):
+    cd = draw(s_chain(Lmin=2, Lmax=6))
+    return {"chain": cd, "where": draw(s_where(cd, 2)), "gate": draw(s_gate()), "inplace": draw(st.booleans()),
+            "swap_back": draw(st.sampled_from([True, True, False])), "orthog": draw(st.sampled_from(["none", "calc", "info", "pre-canon"])),
+            "csite": draw(st.integers(0, 5)), "max_bond": draw(st.sampled_from(["default", None]))}
+
+
+def swap_perm(L, i, j):
+    """documented for swap_back=False: for i<j, site j ends at i+1, the sites in between move one place up."""
+    i, j = min(i, j), max(i, j)
+    return list(range(0, i + 1)) + [j] + list(range(i + 1, j)) + list(range(j + 1, L))
+
+
+def run_mps_auto_swap(case):
+    cd = case["chain"]
+    psi = build_mps(cd)
+    L, dims = cd["L"], cd["dims"]
+    where = list(case["where"])
+    order = [cd["site_ind_id"].format(i) for i in range(L)]
+    Gm, Garg = build_gate(case["gate"], [dims[w] for w in where])
+    kw = {"cutoff": 0.0, "swap_back": case["swap_back"]}
+    if case["max_bond"] is None:
+        kw["max_bond"] = None
+    if case["orthog"] == "calc":
+        kw["cur_orthog"] = "calc"
+    elif case["orthog"] == "info":
+        kw["info"] = {}
+    elif case["orthog"] == "pre-canon":
+        c = case["csite"] % L
+        psi.canonicalize_(c)
+        kw["info"] = {"cur_orthog": (c, c)}
+    before, floor = dense(psi, order), magnitude(psi)
+    alltags, ntens, cls0 = sorted(psi.tags), psi.num_tensors, type(psi)
+    info = dict(entry="MPS.gate_with_auto_swap", cyclic=cd["cyclic"], swap_back=case["swap_back"], orthog=case["orthog"])
+    res = psi.gate_with_auto_swap_(Garg, tuple(where), **kw) if case["inplace"] else psi.gate_with_auto_swap(Garg, tuple(where), **kw)
+    ref = apply_ops(before, dims, [(Gm, where)])
+    odims = dims
+    if not case["swap_back"]:
+        ref, odims = permuted(ref, dims, swap_perm(L, *where))
+    e = verify(ref, floor * max(np.linalg.norm(Gm), 1e-300), res, order, odims, [], keep_tags=alltags, **info)
+    check_class(cls0, res, **info)
+    if res.num_tensors != ntens:
+        raise Violation("tensor-count", got=res.num_tensors, want=ntens, **info)
+    return {"nt": True, "err": e,
+            "cls": gate_classes(case["gate"], 2) + where_classes(cd, where) + [f"swap_back={case['swap_back']}", "orthog=" + case["orthog"]]}
+
+
+# ---------------------------------------------------------------------------
+# 11. MatrixProductState.gate_nonlocal  (gate -> sub-MPO -> compressed in)
+# ---------------------------------------------------------------------------
+
+NONLOCAL_METHODS = ["direct", "direct", "lazy", "dm", "zipup", "zipup-first"]
+
+
+@st.composite
+def s_mps_nonlocal(draw, tier):
+    cd = draw(s_chain(cyclic=False))
+    k = draw(st.sampled_from([1, 2, 2, 3, 3, 4]))
+    return {"chain": cd, "where": draw(s_where(cd, k)), "gate": draw(s_gate()), "inplace": draw(st.booleans()),
+            "method": draw(st.sampled_from(NONLOCAL_METHODS)), "transpose": draw(st.booleans()),
+            "dims": draw(st.sampled_from(["none", "explicit", "int"])), "orthog": draw(st.sampled_from(["none", "info"])),
+            "sweep_reverse": draw(st.booleans())}
+
+
+def run_mps_nonlocal(case):
+    cd = case["chain"]
+    psi = build_mps(cd)
+    L, dims = cd["L"], cd["dims"]
+    where = list(case["where"])
+    k = len(where)
+    order = [cd["site_ind_id"].format(i) for i in range(L)]
+    wd = [dims[w] for w in where]
+    Gm, Garg = build_gate(case["gate"], wd)
+    method = case["method"]
+    kw = {"method": method, "transpose": case["transpose"]}
+    if method != "lazy":
+        kw["cutoff"] = 0.0
+        kw["max_bond"] = None
+        if case["sweep_reverse"]:
+            kw["sweep_reverse"] = True
+    if case["dims"] == "explicit":
+        kw["dims"] = tuple(wd)
+    elif case["dims"] == "int" and len(set(wd)) == 1:
+        kw["dims"] = wd[0]
+    info_d = {} if case["orthog"] == "info" else None
+    if info_d is not None:
+        kw["info"] = info_d
+    before, floor = dense(psi, order), magnitude(psi)
+    alltags, ntens, cls0 = sorted(psi.tags), psi.num_tensors, type(psi)
+    info = dict(entry="MPS.gate_nonlocal", method=method, k=k, transpose=case["transpose"])
+    res = psi.gate_nonlocal_(Garg, tuple(where), **kw) if case["inplace"] else psi.gate_nonlocal(Garg, tuple(where), **kw)
+    tol = TOL if method in ("direct", "lazy") else INV64
+    e = verify(before, floor, res, order, dims, [(effective(Gm, case["transpose"]), where)], keep_tags=alltags, tol=tol, **info)
+    check_class(cls0, res, **info)
+    if method != "lazy" and res.num_tensors != ntens:
+        raise Violation("tensor-count", got=res.num_tensors, want=ntens, **info)
+    return {"nt": k >= 2 or case["transpose"], "err": e if tol == TOL else e * 1e-3,
+            "cls": gate_classes(case["gate"], k) + where_classes(cd, where) + ["method=" + method, f"T={case['transpose']}", "dims=" + case["dims"]]}
+
+
+# ---------------------------------------------------------------------------
+# 12. MatrixProductState.gate_with_submpo / gate_with_mpo  (operator given as (sub-)MPO)
+# ---------------------------------------------------------------------------
+
+@st.composite
+def s_mps_submpo(draw, tier):
+    cd = draw(s_chain(cyclic=False))
+    L = cd["L"]
+    full = draw(st.integers(0, 3)) == 0
+    k = L if full else draw(st.integers(1, min(L, 4)))
+    sites = sorted(list(draw(st.permutations(list(range(L)))))[:k])
+    return {"chain": cd, "sites": sites, "obonds": [draw(st.sampled_from([1, 2, 3])) for _ in range(max(k - 1, 1))],
+            "entry": "gate_with_mpo" if (full and draw(st.booleans())) else "gate_with_submpo",
+            "method": draw(st.sampled_from(NONLOCAL_METHODS)), "transpose": draw(st.booleans()), "inplace": draw(st.booleans()),
+            "where": draw(st.sampled_from(["none", "sites", "range"])), "inplace_mpo": draw(st.booleans()),
+            "op_ids": draw(st.sampled_from([["k{}", "b{}"], ["k{}", "b{}"], ["x{}", "y{}"], ["b{}", "k{}"]]))}
+
+
+def run_mps_submpo(case):
+    cd = dict(case["chain"])
+    psi = build_mps(cd)
+    L, dims = cd["L"], cd["dims"]
+    sites = list(case["sites"])
+    k = len(sites)
+    order = [cd["site_ind_id"].format(i) for i in range(L)]
+    up, low = case["op_ids"]
+    entry, method = case["entry"], case["method"]
+    if entry == "gate_with_mpo" and method == "lazy":
+        method = "direct"
+    ocd = dict(cd, cyclic=False)
+    mpo = build_mpo(ocd, seed_shift=7, sites=sites if entry == "gate_with_submpo" or k < L else None, bonds=case["obonds"],
+                    upper=up, lower=low, tags="OP")
+    uo = [up.format(i) for i in sites]
+    lo = [low.format(i) for i in sites]
+    Om = dense(mpo, uo + lo).reshape(int(np.prod([dims[i] for i in sites])), -1)
+    ofloor = magnitude(mpo)
+    kw = {"method": method, "transpose": case["transpose"], "inplace_mpo": case["inplace_mpo"]}
+    if method != "lazy":
+        kw["cutoff"] = 0.0
+        kw["max_bond"] = None
+    if entry == "gate_with_submpo":
+        if case["where"] == "sites":
+            kw["where"] = tuple(sites)
+        elif case["where"] == "range":
+            kw["where"] = (sites[0], sites[-1])  # "the range of sites the MPO acts on"
+    before, floor = dense(psi, order), magnitude(psi)
+    alltags, ntens, cls0 = sorted(psi.tags), psi.num_tensors, type(psi)
+    info = dict(entry="MPS." + entry, method=method, k=k, transpose=case["transpose"])
+    f = getattr(psi, entry + ("_" if case["inplace"] else ""))
+    res = f(mpo, **kw)
+    tol = TOL if method in ("direct", "lazy") else INV64
+    e = verify(before, floor * ofloor / max(np.linalg.norm(Om), 1e-300), res, order, dims,
+               [(effective(Om, case["transpose"]), sites)], keep_tags=alltags, tol=tol, **info)
+    check_class(cls0, res, **info)
+    if method != "lazy" and res.num_tensors != ntens:
+        raise Violation("tensor-count", got=res.num_tensors, want=ntens, **info)
+    return {"nt": True, "err": e if tol == TOL else e * 1e-3,
+            "cls": ["entry=" + entry, "method=" + method, f"T={case['transpose']}", f"sites={k}", "where=" + case["where"],
+                    "contiguous" if sites == list(range(sites[0], sites[-1] + 1)) else "gaps", "ids=" + up + low]}
+
+
 SUBCHECKS = [
     SubCheck("tensor_gate", run_tensor_gate, s_tensor_gate, examples=(150, 3000), shards=(1, 4),
              rule="Tensor.gate / gate_ on one label of a rank 1-3 tensor, transpose (and its deprecated alias), preserve_inds; "
@@ -764,4 +1225,18 @@ SUBCHECKS = [
     SubCheck("sandwich_inds", run_sandwich_inds, s_sandwich_inds, examples=(300, 6000), shards=(1, 4),
              rule="gate_sandwich_inds (G X G^dag; dagger: G^dag X G; transpose: G^T X conj(G)) on generic operator-like networks, all 7 "
                   "contract modes, 1-3 (upper, lower) pairs in any order; all nt (two operators are applied)"),
+    SubCheck("mps_gate", run_mps_gate, s_mps_gate, examples=(400, 8000), shards=(1, 4),
+             rule="MatrixProductState.gate on seeded open/periodic MPS with mixed physical dimensions, all 10 contract modes, 1-3 sites in "
+                  "any order, tags / propagate_tags (documented tag set of the lazy gate tensor), receivers optionally pre-gated; "
+                  "nt: >=2 sites or a mode other than False/True"),
+    SubCheck("mps_gate_split", run_mps_gate_split, s_mps_gate_split, examples=(200, 4000), shards=(1, 4),
+             rule="MatrixProductState.gate_split on an adjacent pair in either order (incl. the periodic bond), absorb/method/cutoff_mode options; all nt"),
+    SubCheck("mps_auto_swap", run_mps_auto_swap, s_mps_auto_swap, examples=(250, 5000), shards=(1, 4),
+             rule="gate_with_auto_swap on any ordered pair, swap_back True/False (documented final site permutation), cur_orthog/info variants; all nt"),
+    SubCheck("mps_nonlocal", run_mps_nonlocal, s_mps_nonlocal, examples=(250, 5000), shards=(1, 4),
+             rule="gate_nonlocal on 1-4 sites in any order, methods direct/lazy/dm/zipup/zipup-first (cutoff=0), transpose, dims given or not; "
+                  "nt: >=2 sites or transpose"),
+    SubCheck("mps_submpo", run_mps_submpo, s_mps_submpo, examples=(250, 5000), shards=(1, 4),
+             rule="gate_with_submpo / gate_with_mpo with a seeded (sub-)MPO on a sorted subset of sites (with gaps), where given or inferred, "
+                  "transpose, 5 methods; all nt"),
 ]
